@@ -9,6 +9,7 @@ coverage of entity state by Entity._bytes.
 from __future__ import annotations
 
 import ast
+import re
 
 from ..cachesim import CacheSim
 from ..effects import Effects
@@ -124,6 +125,21 @@ def _arc_obligations(run, ix):
         if not ok:
             run.violation("A3", fl.where, f"Arc.length (closed={closed}) is {sp.simplify(sp.sympify(got))}, not {want}: Path.length then depends on how a curve is represented",
                           key=key_of("C14-A3", closed))
+    # ---------------- A4 SVG export: the large-arc flag is the span test
+    run.rule("A4", "SVG export: the large-arc flag of an arc is `span > pi` with the span returned by arc_center (proved independent of the control point by A2)")
+    from ..provenance import Prov
+    fs = ix.func("trimesh.path.exchange.svg_io:_entities_to_str.svg_arc")
+    ps = Prov(ix, fs)
+    lf = [st for st in ast.walk(fs.node) if isinstance(st, ast.Assign) and isinstance(st.targets[0], ast.Name) and st.targets[0].id == "large_flag"]
+    if len(lf) != 1:
+        raise AnalysisError("anchor vanished: `large_flag = ...` in svg_io svg_arc")
+    txt = ps.canon(lf[0].value, lf[0])
+    good = re.fullmatch(r"int\(trimesh\.path\.arc\.arc_center\((?:L_|PHI_|P_)?[\w\[\].]+(?:, [\w=]+)*\)\.span >=? numpy\.pi\)", txt) is not None \
+        and "return_angle=False" not in txt
+    run.instance("A4", fs.where, f"large_flag := `{txt[:100]}`", good)
+    if not good:
+        run.violation("A4", fs.where, f"SVG export decides the large-arc flag by `{txt[:110]}` instead of `arc_center(...).span > pi`: unless the test is independent of where the "
+                                      f"middle control point sits, arcs of more than 180 degrees are written as the minor arc", key=key_of("C14-A4", "large-flag"))
     # ---------------- A2
     r, cx, cy = sp.symbols("r cx cy", real=True)
     st_, ct = sp.symbols("s_t c_t", real=True)
